@@ -144,7 +144,8 @@ func spawnRun(prog compiler.CompileOutput, limits runtime.CoreLimits, procs int,
 			vmp.Cores.Lock.Unlock()
 			lock = "free"
 		}
-		if gor == "ok" {
+		if gor == "ok" && outcome == "OK" {
+			// only then every core's writes happen-before this read (Wait received every signal)
 			h := &hostVM{vm: vmp}
 			globals = h.globalsSx().String()
 		}
